@@ -98,11 +98,14 @@ pub struct EvSc {
 	pub gated: bool,
 	pub horizon: u64,
 	pub errh: ErrBeh,
+	/// the error-hook task is a slow consumer: it is polled only when ENV releases it
+	#[serde(default)]
+	pub slow_errh: bool,
 }
 
 impl EvSc {
 	pub fn base(script: Vec<(Ev, u8)>, throttle: u64) -> Self {
-		EvSc { script, chan: 4096, err_chan: 64, throttle, throttle_change: None, gated: false, horizon: throttle + 2, errh: ErrBeh::Record }
+		EvSc { script, chan: 4096, err_chan: 64, throttle, throttle_change: None, gated: false, horizon: throttle + 2, errh: ErrBeh::Record, slow_errh: false }
 	}
 }
 
@@ -120,6 +123,7 @@ pub enum L {
 	Tick { t: u64 },
 	MainEnded { t: u64, result: String },
 	Drain,
+	Note(String),
 }
 
 #[derive(Default)]
@@ -153,6 +157,7 @@ fn render(l: &L) -> String {
 		L::Tick { t } => format!("tick -> t{t}"),
 		L::MainEnded { t, result } => format!("t{t} main ended: {result}"),
 		L::Drain => "-- drain --".into(),
+		L::Note(s) => s.clone(),
 	}
 }
 
@@ -216,6 +221,15 @@ enum Act {
 	Tick,
 	HandlerDone,
 	SetThrottle,
+	RunSlow(u64),
+}
+
+/// Spawn ordinal of the error-hook task (learnt from a calibration execution).
+static ERRH_ORDINAL: std::sync::atomic::AtomicU64 = std::sync::atomic::AtomicU64::new(0);
+
+pub fn calibrate() {
+	let sc = EvSc::base(vec![(Ev::NErr, 0)], 0);
+	let _ = run(&sc, Bounds::k(0, Policy::Fifo), &[], "C15");
 }
 
 pub fn run(sc: &EvSc, bounds: Bounds, prefix: &[Point], prop: &str) -> Result<Exec<Obs>, String> {
@@ -244,6 +258,9 @@ fn install_errh(config: &Config, beh: ErrBeh, gen: usize) {
 		});
 		let text = e.error.to_string();
 		let t = rt::now();
+		if let Some(o) = tokio::verif::current_task_ordinal() {
+			ERRH_ORDINAL.store(o, std::sync::atomic::Ordering::Relaxed);
+		}
 		let action: &'static str = match beh {
 			ErrBeh::Elevate(j) if j == n => {
 				e.elevate();
@@ -305,6 +322,15 @@ async fn body(sc: &EvSc, bounds: Bounds, prop: &str) -> Obs {
 	let wx = Arc::new(Watchexec::with_config(config).expect("watchexec"));
 	let mut main = wx.main();
 	let mut main_done = false;
+	// let the main task spawn its workers first, so that their spawn ordinals do not
+	// depend on how many producers the scenario has
+	let _ = rt::settle_quiet().await;
+	if sc.slow_errh {
+		let o = ERRH_ORDINAL.load(std::sync::atomic::Ordering::Relaxed);
+		if o != 0 {
+			rt::mark_slow(o);
+		}
+	}
 
 	// producers
 	let producers: Vec<u8> = {
@@ -379,6 +405,9 @@ async fn body(sc: &EvSc, bounds: Bounds, prop: &str) -> Obs {
 		if throttle_pending.is_some() {
 			menu.push(Act::SetThrottle);
 		}
+		for o in rt::slow_runnable() {
+			menu.push(Act::RunSlow(o));
+		}
 		if menu.is_empty() {
 			if !quiescent {
 				continue;
@@ -400,6 +429,10 @@ async fn body(sc: &EvSc, bounds: Bounds, prop: &str) -> Obs {
 				w(|x| x.log.push(L::HandlerDone));
 				gate.open(1);
 			}
+			Act::RunSlow(o) => {
+				w(|x| x.log.push(L::Note("error hook runs".into())));
+				rt::run_slow(o).await;
+			}
 			Act::SetThrottle => {
 				let t = throttle_pending.take().unwrap();
 				w(|x| x.log.push(L::Throttle { ticks: t, t: now }));
@@ -412,6 +445,7 @@ async fn body(sc: &EvSc, bounds: Bounds, prop: &str) -> Obs {
 	if !livelock {
 		w(|x| x.log.push(L::Drain));
 		gate.open(1000);
+		rt::clear_slow();
 		let max_thr = sc.throttle.max(sc.throttle_change.unwrap_or(0));
 		'drain: for _ in 0..(sc.script.len() as u64 + 2) {
 			for _ in 0..=(max_thr + 1) {
@@ -541,21 +575,36 @@ fn c01_end(sc: &EvSc, main_done: bool) {
 fn c02_end(sc: &EvSc, default_schedule: bool) {
 	let log = w(|x| x.log.clone());
 	let send_t: BTreeMap<usize, u64> = log.iter().filter_map(|l| if let L::Send { id, t, .. } = l { Some((*id, *t)) } else { None }).collect();
-	let min_thr = sc.throttle.min(sc.throttle_change.unwrap_or(sc.throttle));
-	// B1: a batch without urgent events is entered no earlier than send(first) + throttle
-	for l in &log {
+	// B1: a batch without urgent events is entered no earlier than send(first) + throttle,
+	// where "throttle" is the smallest value in force at any moment between the send of
+	// the batch's first event and the handler entry (a change that happened before the
+	// first event was sent is fully in force; one that lands mid-window may or may not
+	// be picked up by a worker already waiting on the old window)
+	for (pe, l) in log.iter().enumerate() {
 		if let L::BatchEnter { ids, t, n } = l {
 			if ids.is_empty() || ids.iter().any(|i| *i < sc.script.len() && class_of(sc, *i).urgent()) {
 				continue;
 			}
 			let first = ids[0];
-			if let Some(ts) = send_t.get(&first) {
-				if *t < ts + min_thr {
-					push(
-						"C02/batch-before-window-elapsed".into(),
-						format!("batch{n} {ids:?} entered at t{t}, its first event was sent at t{ts}, throttle {min_thr}"),
-					);
+			let Some(ps) = log.iter().position(|x| matches!(x, L::Send { id, .. } if *id == first)) else { continue };
+			let Some(ts) = send_t.get(&first) else { continue };
+			let mut in_force = sc.throttle;
+			for x in &log[..ps] {
+				if let L::Throttle { ticks, .. } = x {
+					in_force = *ticks;
 				}
+			}
+			let mut min_thr = in_force;
+			for x in &log[ps..pe] {
+				if let L::Throttle { ticks, .. } = x {
+					min_thr = min_thr.min(*ticks);
+				}
+			}
+			if *t < ts + min_thr {
+				push(
+					if sc.throttle_change.is_some() { "C02/batch-before-window-elapsed/after-runtime-throttle-change".into() } else { "C02/batch-before-window-elapsed".into() },
+					format!("batch{n} {ids:?} entered at t{t}, its first event was sent at t{ts}, throttle in force {min_thr}"),
+				);
 			}
 		}
 	}
@@ -785,6 +834,26 @@ pub fn scenarios(prop: &str, tier: Tier) -> Vec<(EvSc, Vec<Bounds>)> {
 			}
 		}
 		_ => {}
+	}
+	if prop == "C15" {
+		// a slow error handler: the hook task falls behind while events keep flowing
+		let len: usize = match tier {
+			Tier::Quick => 3,
+			Tier::Thorough => 4,
+		};
+		let alpha = [Ev::NErr, Ev::NPass];
+		for s in upto(&alpha, len) {
+			if s.iter().filter(|e| **e == Ev::NErr).count() < 2 {
+				continue;
+			}
+			for err_chan in [1usize, 2] {
+				let mut sc = EvSc::base(s.iter().map(|e| (*e, 0)).collect(), 2);
+				sc.err_chan = err_chan;
+				sc.slow_errh = true;
+				sc.horizon = 4;
+				out.push((sc, ladder(0)));
+			}
+		}
 	}
 	out
 }
